@@ -295,6 +295,7 @@ class Plane:
             Use `points_on_or_in_front()` for points which lie either on the
             plane or in front of it.
         """
+        vg.shape.check(locals(), "points", (-1, 3))
         sign = self.sign(points)
 
         if inverted:
@@ -323,6 +324,7 @@ class Plane:
             Use `points_in_front()` to get points which lie only in front of
             the plane.
         """
+        vg.shape.check(locals(), "points", (-1, 3))
         sign = self.sign(points)
 
         if inverted:
@@ -401,6 +403,9 @@ class Plane:
         return np.vstack([p, p, p]).T * rays + pts, ~denom_is_zero
 
     def line_segment_xsections(self, a, b):
+        k = vg.shape.check(locals(), "a", (-1, 3))
+        vg.shape.check(locals(), "b", (k, 3))
+
         pts, pt_is_valid = self.line_xsections(a, b - a)
         pt_is_out_of_bounds = np.logical_or(
             np.any(
